@@ -30,6 +30,10 @@ def run(db, res, tier):
       n += 1
       res.ob(bool(wit[f]), f"{flag}|keeps|{f}", Finding("R-FLAGS.2", f"{flag}|{f}|wrongly-removed", f"with only {flag} set, no write of {f} can execute with a non-zero value: the flag switches off a contribution that belongs to another flag", "mujoco_warp/_src"))
   res.floor("flag obligations", n, 30)
+  nk = 0
+  for flag, fields, assume in flag_tables.KEEPS_CASES:
+    nk += r_flags.check_keeps_cases(res, db, ["forward.forward"], flag, fields, assume_enabled=assume)
+  res.floor("flag-keeps obligations with model case split (R-FLAGS.2b)", nk, 4)
   ns = r_flags.check_sibling_gating(res, db, ENTRIES, flag_tables.DERIVATIVE_OF, flag_tables.DERIVATIVE_FLAGS)
   res.floor("force/derivative gating obligations", ns, 8)
   nc = r_flags.check_derivative_completeness(res, db, ["forward.forward"], "forward.implicit", flag_tables.DERIVATIVE_NEEDED, flag_tables.DERIVATIVE_FLAGS, flag_tables.IMPLICIT_INTEGRATORS)
@@ -46,7 +50,7 @@ def run(db, res, tier):
   res.floor("flag consultation obligations", nd, 25)
   nm = r_flags.check_module_flags(res, db.sm, flag_tables.MODULE_FLAGS)
   res.floor("(module, flag) consultations examined (R-FLAGS.6)", nm, 35)
-  res.rule_text = "R-FLAGS.6: no stage module tests an option flag it does not test on the confirmed tree (flags are stage-scoped); R-FLAGS: under the sole assumption that a flag is set (DisableBit) / clear (EnableBit), every write of the flag's own contribution in step()/forward() is unreachable in three-valued logic over host- and kernel-level path conditions or stores zero, and sibling contributions stay reachable; R-FLAGS.3: under every assignment of ACTUATION/SPRING/DAMPER that makes all launches of a force kernel unreachable, the launches of its velocity-derivative sibling (derivative.py) are unreachable too; R-FLAGS.4 (converse): under every such assignment that leaves a velocity-dependent force kernel launched, its derivative sibling stays reachable in implicit() for IMPLICIT and for IMPLICITFAST separately (integrator tests evaluated on the assigned enum member); R-LIVE.6: for each single flag and each flag pair tested together, no read of a non-state Data field stays reachable while every earlier definition in the same call becomes unreachable (a disabled stage must not leave its consumers reading stale values); R-DISPATCH: every flag is still referenced in each feature area where the confirmed baseline consults it"
+  res.rule_text = "R-FLAGS.2b: with only DisableBit.SENSOR set and energy enabled, for both truth values of every model-determined host condition on the way to a writer of Data.energy, each component of Data.energy keeps a reachable non-zero writer; R-FLAGS.6: no stage module tests an option flag it does not test on the confirmed tree (flags are stage-scoped); R-FLAGS: under the sole assumption that a flag is set (DisableBit) / clear (EnableBit), every write of the flag's own contribution in step()/forward() is unreachable in three-valued logic over host- and kernel-level path conditions or stores zero, and sibling contributions stay reachable; R-FLAGS.3: under every assignment of ACTUATION/SPRING/DAMPER that makes all launches of a force kernel unreachable, the launches of its velocity-derivative sibling (derivative.py) are unreachable too; R-FLAGS.4 (converse): under every such assignment that leaves a velocity-dependent force kernel launched, its derivative sibling stays reachable in implicit() for IMPLICIT and for IMPLICITFAST separately (integrator tests evaluated on the assigned enum member); R-LIVE.6: for each single flag and each flag pair tested together, no read of a non-state Data field stays reachable while every earlier definition in the same call becomes unreachable (a disabled stage must not leave its consumers reading stale values); R-DISPATCH: every flag is still referenced in each feature area where the confirmed baseline consults it"
   res.explanation = "Decides that flag tests are wired to the contributions they should remove and only to those. Not decided: numeric exactness; flags frozen into the Model at put_model time (FILTERPARENT, NATIVECCD, MULTICCD) and value-level flags (CLAMPCTRL, REFSAFE, WARMSTART, EULERDAMP, CONTACT's effect on the collision pipeline) are covered by the consultation clause only."
   res.extra["analysed"] = {"entries": ENTRIES, "flags": sorted(set(flag_tables.FLAG_OFF) | set(flag_tables.FLAG_KEEPS))}
   res.assumptions += ["per-flag contributions as tabled in tables/flag_tables.py (confirmed by reading)"]
